@@ -129,8 +129,13 @@ class Scheduler:
 
     # ---- statement-granularity points (sys.settrace 'line' events inside anchor functions)
     def _global_trace(self, frame, event, arg):  # noqa: ARG002
-        if event == 'call' and self.line_anchors.wants(frame.f_code):
-            return self._local_trace
+        if event == 'call':
+            w = self.line_anchors.wants(frame.f_code)
+            if w:
+                if w == 'op':
+                    frame.f_trace_opcodes = True      # bytecode granularity inside this (tiny) function
+                    return self._local_trace_op
+                return self._local_trace
         return None
 
     def _local_trace(self, frame, event, arg):  # noqa: ARG002
@@ -141,6 +146,15 @@ class Scheduler:
                 code = frame.f_code
                 self.point(f'line:{code.co_name}:{frame.f_lineno - code.co_firstlineno}')
         return self._local_trace
+
+    def _local_trace_op(self, frame, event, arg):  # noqa: ARG002
+        if event == 'opcode' and not self.aborting:
+            t = self.me()
+            if t is not None and not t.done and not t.in_sched:
+                self.line_points += 1
+                code = frame.f_code
+                self.point(f'line:{code.co_name}:op{frame.f_lasti}')
+        return self._local_trace_op
 
     def _body(self, t):
         self._by_ident[threading.get_ident()] = t
@@ -207,8 +221,11 @@ class LineAnchors:
     name of '*' takes every function of the file. Line labels are relative to the first line of the function, so that an
     unrelated edit further up in the file does not change a recorded schedule."""
 
-    def __init__(self, pairs):
+    def __init__(self, pairs, opcode_level=()):
+        """pairs: statement granularity; opcode_level: (file, function) pairs explored at bytecode granularity (a switch
+        between the load and the store of one `x += 1`)."""
         self.pairs = [(os.path.normpath(f), n) for f, n in pairs]
+        self.op_pairs = [(os.path.normpath(f), n) for f, n in opcode_level]
         self._cache = {}
         self.seen = set()
 
@@ -216,7 +233,10 @@ class LineAnchors:
         r = self._cache.get(code)
         if r is None:
             fn = os.path.normpath(code.co_filename)
-            r = any(fn.endswith(f) and (n == '*' or n == code.co_name) for f, n in self.pairs)
+            if any(fn.endswith(f) and n == code.co_name for f, n in self.op_pairs):
+                r = 'op'
+            else:
+                r = any(fn.endswith(f) and (n == '*' or n == code.co_name) for f, n in self.pairs)
             self._cache[code] = r
         if r:
             self.seen.add(code.co_name)
